@@ -103,11 +103,11 @@ Definition refs_visible (refs : list (rid * (option nat * val))) (sp : nat) (b :
                     | Some s => negb (refn_body b (fst p)) || Nat.eqb sp s
                     end) refs.
 Definition cell_hyp (refs : list (rid * (option nat * val))) (cl : cell) : bool :=
-  body_ok (cl_body cl) && refs_visible refs (cl_space cl) (cl_body cl).
+  refs_visible refs (cl_space cl) (cl_body cl).
 Definition op_hyp (cells : list (cid * cell)) (refs : list (rid * (option nat * val))) (o : op) : bool :=
   match o with
   | OpSetFormula c b _ _ =>
-      body_ok b && match lookup_cell cells c with Some cl => refs_visible refs (cl_space cl) b | None => true end
+      match lookup_cell cells c with Some cl => refs_visible refs (cl_space cl) b | None => true end
   | _ => true
   end.
 Definition hyp_case (fuel : nat) (c : case) : bool :=
